@@ -446,7 +446,7 @@ func oneCase(c *fw.Ctx, r *rng.R, dir, id, class, text string, cs *gen.Case) boo
 			panic(err)
 		}
 		c.Eval()
-		errs := lib.GetErrorsCount()
+		errs := countErrors(lib.Diagnostics) // counted here, not by the library's own helper
 		ex := map[string]any{"command": "check", "exit": pr.code, "stdout": pr.stdout, "stderr": pr.stderr}
 		if (errs > 0) != (pr.code != 0) {
 			c.Violation("check-exit-status", fmt.Sprintf("`numscript check` exits with %d but the library reports %d error(s)", pr.code, errs), input(ex))
@@ -642,4 +642,15 @@ func libOutPostings(o *real.Outcome) []real.Posting {
 		return nil
 	}
 	return o.Postings
+}
+
+// countErrors counts the error-severity diagnostics.
+func countErrors(ds []analysis.Diagnostic) int {
+	n := 0
+	for _, d := range ds {
+		if d.Kind.Severity() == analysis.ErrorSeverity {
+			n++
+		}
+	}
+	return n
 }
